@@ -377,7 +377,7 @@ def _check_sdp_from_eigen(w, tol=None):
     raise ValueError("tol should be positive.")
   if any(w < - tol):
     raise NonPSDError()
-  if any(abs(w) < tol):
+  if any(abs(w) <= tol):  # (<=: an exactly zero spectrum has tol == 0)
     return False
   return True
 
